@@ -63,6 +63,13 @@ def run(tier):
     rep.sample(runs[sorted(runs)[len(runs) // 2]][0])
     ndm = sum(1 for evs in runs.values() if evs[0]["kind"] != "none")
     os.remove(dp)
+    # every entry point that reads stored images back (recover, recover_with_progress, recover_with_wal), on intact
+    # layouts and over one damaged download of a segment or of the checkpoint: fail, or return everything
+    lp = os.path.join(wd, "layouts.ndjson")
+    vlib.vh(["recov", "record", "--seed", vlib.seed() * 7 + 3, "--n", 1500 if thorough else 250, "--out", lp])
+    runs, _ = vlib.validate_runs(rep, "RecoveryTrace", "RecoveryTrace", lp, wd, "entry_points", describe="stored image read back: {what}", strip=())
+    ndm += len(runs)
+    os.remove(lp)
     rep.cov["distinct_nontrivial"] = nrt + ndm
     rep.cov["rule"] = ("a case is one value through the four codecs and back, or one real image with one damage read by the real "
                        "reader; undamaged images are not counted")
